@@ -79,16 +79,28 @@
        matrix the maintained residual equals b - A x at every exit (C02_cg_vec_residual, C02_cg_col_residual), so whenever
        the routine returns through its stopping rule the true residual satisfies the coded threshold
        (C02_cg_*_stop_true_residual; component-wise C02_cg_vec_stop_pointwise); for definite matrices and eps > 0 no
-       denominator met is zero (C02_cg_*_well_defined; over a formally real field, Qc instance C02_Q_cg_instance).
+       denominator met is zero (C02_cg_*_well_defined; over a formally real field, Qc instance C02_Q_cg_instance);
+       for SYMMETRIC definite matrices the residuals of the loop are mutually orthogonal and the directions A-conjugate
+       (C02_cg_orthogonal, the classical induction), more than n mutually orthogonal non-zero vectors do not exist in dimension
+       n (linear dependence proved from scratch), hence with eps > 0 and maxit = 0 the routine returns through its stopping
+       rule within n iterations in exact arithmetic (C02_cg_vec_terminates, C02_cg_col_terminates; C02CgConjProofs.v).
+     * EXTENSION (C02SyevModel.v, C02SyevProofs.v), PARTIAL: kernels::syev is modelled as coded in full (tred2 reduction and
+       accumulation, implicit QL with the 50-iteration exception, eigensort, normalisation) and compared on every run through
+       the instantiation with doubles; PROVED is the Householder reduction step only: the reflector is orthogonal, produces the
+       intended zero pattern, and the block update is the similarity P S P (C02_syev_reflector_orthogonal_partial,
+       C02_syev_step_correct_partial, C02_syev_step_skip).  NOT proved: the composition over all rows with the accumulation
+       phase (Q orthogonal, Q^T A Q tridiagonal -- checked by computation on a Qc instance, C02_Q_syev_instance), nothing about
+       the QL iteration (convergence, eigenvalues).
    ONLY COMPARED / MONITORED by tools/c02.py (no theorem): the value potrf returns on failure (the index is relative to
    the diagonal block that failed; compared with the model); the semi-definite solver with MATRIX right-hand sides (trsm instead of
    trsv: the vector model is applied column by column / row by row and compared exactly) (for column-major storage the
    contract on the potrf of L^T L assumed by C02_semi_solve_with_lsq is what C02_potrf_rl_blocked_correct proves, but the two are
-   not composed into one theorem); symmetric eigen-decomposition, termination of conjugate gradient, the OpenBLAS bindings, all floating-point rounding. *)
+   not composed into one theorem); the QL phase and the global statements of the symmetric eigen-decomposition (Q D Q^T = A, Q^T Q = I: monitors at 1e-10), conjugate gradient in floating point beyond the 1e-9 comparison (no rounding-error analysis), the OpenBLAS bindings, all floating-point rounding. *)
 From Coq Require Import List Arith Bool Lia Field QArith Qcanon Permutation.
 From SharkV Require Import C02Model C02Proofs C02Q C02QProofs C02BlkModel C02LUProofs C02CholBlkProofs C02BlkTotalProofs C02LURightProofs.
 From SharkV Require Import C02PstrfModel C02PstrfProofs C02PstrfOrdProofs C02PstrfQProofs C02SemiModel C02SemiProofs C02SemiQProofs C02UpdModel C02UpdProofs C02UpdQProofs C02LUMatModel C02LUMatProofs C02LUMatQProofs C02RlModel C02RlProofs C02RlQProofs.
-From SharkV Require Import C02CgModel C02CgProofs C02CgSpdProofs C02CgQProofs.
+From SharkV Require Import C02CgModel C02CgProofs C02CgSpdProofs C02CgConjProofs C02CgQProofs.
+From SharkV Require Import C02SyevModel C02SyevProofs C02SyevQProofs.
 Local Close Scope Qc_scope. Local Close Scope Q_scope. Local Open Scope nat_scope.
 
 Section AnyField.
@@ -636,3 +648,91 @@ Proof.
   destruct ex_cg_runs as (_ & H2 & H3 & _). split; assumption.
 Qed.
 Print Assumptions C02_Q_cg_instance.
+
+(* ---- conjugate gradient on symmetric definite matrices: the classical induction and termination within n iterations ---- *)
+Section CgClassical.
+Variable A : Type.
+Variable F : ops A.
+Variable fabs : A -> A.
+Hypothesis Fth : field_theory (fzero F) (fone F) (fadd F) (fmul F) (fsub F) (fopp F) (fdiv F) (finv F) (@eq A).
+Hypothesis feqb_spec : forall x y, feqb F x y = true <-> x = y.
+(* Rk, Pk: the residuals and search directions the loop goes through from the initial residual r0 (C02CgConjProofs.loop_step_seq:
+   one iteration of cg_loop / cgm_loop maps (Rk k, Pk k) to (Rk (k+1), Pk (k+1)) component-wise).  For a symmetric matrix, as long as
+   no denominator vanishes: r_k . r_i = 0 and p_k^T A p_i = 0 for i < k *)
+Theorem C02_cg_orthogonal : forall n (M : mat A), (forall i j, i < n -> j < n -> M i j = M j i) ->
+  forall (r0 : vec A) K,
+  (forall k, k < K -> rr A F n (Rk A F n M r0) k <> fzero F /\ pAp A F n M (Pk A F n M r0) k <> fzero F) ->
+  forall k, k <= K -> forall i, i < k ->
+    dot A F n (Rk A F n M r0 k) (Rk A F n M r0 i) = fzero F /\ dotA A F n M (Pk A F n M r0 k) (Pk A F n M r0 i) = fzero F.
+Proof. intros n M Msym r0. exact (cg_seq_orthogonal A F Fth n M Msym r0). Qed.
+(* hence (n+1 mutually orthogonal non-zero vectors do not exist in dimension n -- proved, C02CgConjProofs.no_orth_family): with
+   eps > 0 and no iteration limit the routine returns THROUGH ITS STOPPING RULE after at most n iterations, in exact arithmetic *)
+Theorem C02_cg_vec_terminates : fabs (fzero F) = fzero F -> (forall x, fltb F x x = false) ->
+  (forall n v, nonzero A F n v -> dot A F n v v <> fzero F) ->
+  forall fuel n (M : mat A) eps (x0 b : vec A), (forall i j, i < n -> j < n -> M i j = M j i) -> definite A F n M ->
+  fltb F (fzero F) eps = true -> n < fuel ->
+  let o := cg_vec A F fabs fuel n M eps 0 x0 b in
+  (cg_why A o = StopEps \/ cg_why A o = StopInit) /\ cg_iters A o <= n.
+Proof. exact (cg_vec_terminates A F Fth feqb_spec fabs). Qed.
+Theorem C02_cg_col_terminates : fabs (fzero F) = fzero F -> (forall x, fltb F x x = false) ->
+  (forall n v, nonzero A F n v -> dot A F n v v <> fzero F) ->
+  forall fuel n (M : mat A) eps (b : vec A), (forall i j, i < n -> j < n -> M i j = M j i) -> definite A F n M ->
+  fltb F (fzero F) eps = true -> S n < fuel ->
+  let o := cg_col A F fabs fuel n M eps 0 b in
+  (cg_why A o = StopEps \/ cg_why A o = StopInit) /\ cg_iters A o <= n.
+Proof. exact (cg_col_terminates A F Fth feqb_spec fabs). Qed.
+End CgClassical.
+Print Assumptions C02_cg_orthogonal.
+Print Assumptions C02_cg_vec_terminates.
+Print Assumptions C02_cg_col_terminates.
+
+(* ================= extension: symmetric eigen-decomposition, the Householder reduction step of kernels::syev (C02SyevModel.v / C02SyevProofs.v) ================= *)
+(* FULL STATEMENT (not proved in general, hence _partial; checked by computation on the Qc instance C02_Q_syev_instance and compared
+   through the double model of the WHOLE routine on every run): after phases 1-2 (tred2), Q is orthogonal and Q^T A Q = tridiag(d,e).
+   PROVED: each reduction step is an orthogonal similarity with the intended zero pattern -- for the row i with scale <> 0, the
+   reflector P = I - u u^T/h (refl) built by the code (u, h from tred_house; sqrt exact on the value met, h <> 0, h+h <> 0) is
+   orthogonal, maps row i onto (0,..,0,e_i), the new leading block is P S P (S = the symmetric matrix whose lower triangle is
+   stored), e_i = scale*g, d_i = h, u*scale and u/(scale*h) are left in row / column i, everything else is untouched. *)
+Section Syev.
+Variable A : Type.
+Variable F : ops A.
+Variable fabs : A -> A.
+Hypothesis Fth : field_theory (fzero F) (fone F) (fadd F) (fmul F) (fsub F) (fopp F) (fdiv F) (finv F) (@eq A).
+Hypothesis feqb_spec : forall x y, feqb F x y = true <-> x = y.
+Definition syev_sqrt_exact (i : nat) (V : mat A) (scale : A) : Prop :=
+  let h0 := sumr A F 0 i (fun k => fmul F (fdiv F (V i k) scale) (fdiv F (V i k) scale)) in fmul F (fsqrt F h0) (fsqrt F h0) = h0.
+Theorem C02_syev_reflector_orthogonal_partial : forall i (V : mat A) scale g h (u : vec A), 0 < i ->
+  tred_house A F fabs i V = Some (scale, g, h, u) -> syev_sqrt_exact i V scale -> h <> fzero F ->
+  forall r c, r < i -> c < i ->
+    sumr A F 0 i (fun t => fmul F (refl A F h u r t) (refl A F h u t c)) = delta A F r c.
+Proof. exact (refl_orthogonal A F fabs Fth feqb_spec). Qed.
+Theorem C02_syev_step_correct_partial : forall n i (V : mat A) scale g h (u : vec A), 0 < i ->
+  tred_house A F fabs i V = Some (scale, g, h, u) -> syev_sqrt_exact i V scale -> h <> fzero F -> fadd F h h <> fzero F ->
+  forall e d : vec A,
+  match tred_step A F fabs n i V e d with
+  | (V', e', d') =>
+    (forall r c, c <= r < i -> V' r c =
+       sumr A F 0 i (fun x => fmul F (refl A F h u r x) (sumr A F 0 i (fun y => fmul F (symL A V x y) (refl A F h u y c))))) /\
+    e' i = fmul F scale g /\ d' i = h /\
+    (forall c, c < i -> sumr A F 0 i (fun t => fmul F (V i t) (refl A F h u t c)) = if Nat.eqb c (i - 1) then e' i else fzero F) /\
+    (forall c, c < i -> V' i c = fmul F (u c) scale) /\ (forall r, r < i -> V' r i = fdiv F (u r) (fmul F scale h)) /\
+    (forall r c, i < r \/ (i < c /\ r < c) \/ (r = i /\ c = i) \/ (r < c < i) -> V' r c = V r c) /\
+    (forall j, i < j -> e' j = e j /\ d' j = d j)
+  end.
+Proof. exact (tred_step_correct A F fabs Fth feqb_spec). Qed.
+Theorem C02_syev_step_skip : forall n i (V : mat A) (e d : vec A), tred_house A F fabs i V = None ->
+  tred_step A F fabs n i V e d = (V, upd A e i (V i (i - 1)), upd A d i (fzero F)).
+Proof. exact (tred_step_skip A F fabs). Qed.
+End Syev.
+Print Assumptions C02_syev_reflector_orthogonal_partial.
+Print Assumptions C02_syev_step_correct_partial.
+Print Assumptions C02_syev_step_skip.
+(* over Qc: the hypotheses are satisfiable (row (3,4): scale 7, h0 = 25/49, sqrt 5/7), and on that 3 x 3 instance the full statement
+   holds by computation: Q^T A Q = tridiag(d,e) and Q^T Q = I for the output of tred2 *)
+Theorem C02_Q_syev_instance :
+  (exists scale g h u, tred_house Qc sy_F qc_abs 2 ex_sy_A = Some (scale, g, h, u) /\ h <> fzero sy_F /\ fadd sy_F h h <> fzero sy_F /\
+     (let h0 := sumr Qc sy_F 0 2 (fun k => fmul sy_F (fdiv sy_F (ex_sy_A 2 k) scale) (fdiv sy_F (ex_sy_A 2 k) scale)) in
+      fmul sy_F (fsqrt sy_F h0) (fsqrt sy_F h0) = h0)) /\
+  ex_tred2_statement.   (* Q^T A Q = tridiag(d,e), Q^T Q = I, e_2 = -5 for the output (Q,d,e) of tred2: C02SyevQProofs.v *)
+Proof. exact (conj ex_syev_hypotheses_satisfiable ex_tred2_similarity). Qed.
+Print Assumptions C02_Q_syev_instance.
